@@ -1,12 +1,143 @@
 (* C14 - Colang 1.0 dialog flows are followed like structured programs.
-   Property theorems only; every proof is `exact <lemma>`; Print Assumptions beneath each. *)
+   Property theorems only; every proof is `exact <lemma>`; Print Assumptions beneath each.
+
+   steps_now = V1.Interp.compute_next_steps (the transcription of flows.py / sliding.py)
+               configured by what translator/gen_c14.py reads from the CURRENT source;
+   next_steps = V1.Structured.next_steps, the reference semantics of the structured SOURCE
+               (continuations + call stack; no heads, offsets or flow states);
+   compile_prog = this development's compiler for the subset, checked on every run to produce
+               exactly the FlowConfigs the real parser produces.
+   Fuel: both sides take explicit fuel; a result other than Fuel does not depend on it
+   (C14_history_only), and the theorems hold for all sufficiently large fuel. *)
 From Coq Require Import ZArith List String Bool.
-From NG Require Import Gen.C14Consts V1.Expr V1.Elems V1.Slide V1.Interp V1.Structured.
+From NG Require Import Gen.C14Consts V1.Expr V1.Elems V1.Slide V1.Interp V1.Structured
+                       V1.Interp_proofs V1.Code_proofs V1.Slide_proofs V1.Sim_proofs.
 Import ListNotations.
 Open Scope string_scope.
+Open Scope list_scope.
 
 (* (T) the current source marks a flow that runs to its end in the event that starts it as
    COMPLETED (the loop that starts new flows does what the loop over running flows does) *)
 Theorem C14_start_marks_completed_in_source : start_marks_completed = true.
 Proof. exact eq_refl. Qed.
 Print Assumptions C14_start_marks_completed_in_source.
+
+(* (T) _call_subflow proposes a called subflow's head as next step only while that subflow is
+   ACTIVE - not when it is itself waiting for a deeper subflow *)
+Theorem C14_call_records_active_only_in_source : call_records_active_only = true.
+Proof. exact eq_refl. Qed.
+Print Assumptions C14_call_records_active_only_in_source.
+
+(* slide() on compiled code follows the structured semantics inside one flow body: sequencing,
+   set, if/else, while, break, continue at any nesting depth, up to the next statement that needs
+   an event, the next `do`, or the end of the body (kmatch: continuation <-> code position) *)
+Theorem C14_slide_follows_structure :
+  forall C fuel c u blk k r pc lp,
+    lexec fuel c u blk k = r -> r <> LFuel ->
+    code_at C pc (compile_block (rel lp pc) blk) ->
+    wf_block (inl lp) blk = true ->
+    kmatch C k (pc + bsize blk)%Z lp ->
+    (0 < zlen C)%Z ->
+    exists sr, slide_post C r sr /\ exists F, forall f, (F <= f)%nat -> slide f C pc c u = sr.
+Proof. exact lexec_slide. Qed.
+Print Assumptions C14_slide_follows_structure.
+
+(* compiler correctness, whole histories: for every well-formed structured program whose dialog
+   flow has no `do` (any nesting of if/else, while, break, continue, set, user, bot, execute) and
+   EVERY history - following the flow, leaving it, coming back, restarting, bot stop,
+   hide_prev_turn, context updates, events of other types - compute_next_steps on the compiled
+   flow returns exactly what the reference semantics returns (steps, or the Python exception).
+   FULL statement (with subflow calls): Sim_proofs.compile_correct_statement - not proved here;
+   missing: the simulation for a stack of flow states (sws with `flow` elements pushing
+   interrupted callers, and the resume loop of compute_next_state unwinding them in list order).
+   It is tested by the correspondence on every run and evaluated on a nested instance below. *)
+Theorem C14_compile_correct_partial :
+  forall p fuel hist r,
+    wf_prog p = true -> nodo_block (p_main p) = true ->
+    next_steps fuel p hist = r -> r <> Fuel ->
+    exists F, forall f, (F <= f)%nat -> steps_now f (compile_prog p) hist = r.
+Proof. exact (fun p fuel hist r => compile_correct_partial p fuel hist r C14_start_marks_completed_in_source). Qed.
+Print Assumptions C14_compile_correct_partial.
+
+(* following: when the history has followed the flow up to statement w (continuation k, context
+   c built by the sets executed so far) and the next event is the one w waits for, the decided
+   step is the statement the structured program blocks on next, with the assignments made on the
+   way (this characterises the SPECIFICATION; with C14_compile_correct_partial it transfers to
+   compute_next_steps) *)
+Theorem C14_follow_spec :
+  forall fuel p hist w k stk c ev,
+    follows_to fuel p hist w k stk c ->
+    match ev with EvStartAct | EvCtx _ | EvHide => False | _ => True end ->
+    string_in (event_type ev) default_triggers = true ->
+    wait_match w ev = true -> is_bot_stop ev = false ->
+    next_steps fuel p (hist ++ [ev]) =
+    match resume (p_subs p) fuel c [] k stk with
+    | XWait w' _ _ _ u' => Ok ((match u' with [] => [] | _ => [OCtx u'] end) ++
+                              (if actionable w' then [step_of_wait w'] else []))
+    | XEnd _ u' => Ok (match u' with [] => [] | _ => [OCtx u'] end)
+    | XExc => Exc
+    | XFuel => Fuel
+    end.
+Proof. exact spec_follow. Qed.
+Print Assumptions C14_follow_spec.
+
+(* leaving: a history that has followed the flow up to statement w and continues with an event
+   that w does not wait for yields no step at all *)
+Theorem C14_leave_partial :
+  forall p fuel hist w k stk c ev,
+    wf_prog p = true -> nodo_block (p_main p) = true ->
+    follows_to fuel p hist w k stk c ->
+    match ev with EvStartAct | EvCtx _ | EvHide => False | _ => True end ->
+    string_in (event_type ev) default_triggers = true ->
+    wait_match w ev = false ->
+    exists F, forall f, (F <= f)%nat -> steps_now f (compile_prog p) (hist ++ [ev]) = Ok [].
+Proof. exact (fun p fuel hist w k stk c ev => leave_partial p fuel hist w k stk c ev C14_start_marks_completed_in_source). Qed.
+Print Assumptions C14_leave_partial.
+
+(* the decision is a function of (flow configs, history) alone: the model threads no state
+   between calls (slide's `_active_label*` annotations are written, never read), and its only
+   extra input, the fuel, does not influence a result: any two terminating evaluations agree.
+   (The harness evaluates every history twice on the same FlowConfig objects and once on freshly
+   parsed ones.) *)
+Theorem C14_history_only :
+  forall o f1 f2 cs h,
+    compute_next_steps o f1 cs h <> Fuel -> compute_next_steps o f2 cs h <> Fuel ->
+    compute_next_steps o f1 cs h = compute_next_steps o f2 cs h.
+Proof. exact compute_next_steps_fuel_independent. Qed.
+Print Assumptions C14_history_only.
+
+(* regression documentation: what the pinned snapshot did.  Without the COMPLETED mark a flow
+   that ends in the event that starts it swallows the next matching event ... *)
+Theorem C14_unmarked_start_refuted :
+  exists p hist, wf_prog p = true /\ nodo_block (p_main p) = true /\
+    next_steps 50 p hist = Ok [OBot "say b"] /\
+    compute_next_steps {| o_mark := false; o_guard := true |} 50 (compile_prog p) hist = Ok [].
+Proof. exact unmarked_start_refuted. Qed.
+Print Assumptions C14_unmarked_start_refuted.
+
+(* ... and without the ACTIVE guard the statement after a nested `do` is proposed while the
+   inner subflow still waits for the user *)
+Theorem C14_unguarded_call_refuted :
+  exists p hist, wf_prog p = true /\
+    next_steps 50 p hist = Ok [] /\
+    compute_next_steps {| o_mark := true; o_guard := false |} 50 (compile_prog p) hist = Ok [OBot "say x"].
+Proof. exact unguarded_call_refuted. Qed.
+Print Assumptions C14_unguarded_call_refuted.
+
+(* non-vacuity: a nested program (if / while / break / continue / set / execute) satisfies the
+   hypotheses, a 5-event history follows it into the loop and out through `break` ... *)
+Theorem C14_example_nested :
+  wf_prog ex_nodo = true /\ nodo_block (p_main ex_nodo) = true /\
+  (exists k, follows_to 100 ex_nodo ex_nodo_hist (WExec "act_x" "{}" (Some "r")) k [] [("i", VInt 2%Z)]) /\
+  next_steps 100 ex_nodo ex_nodo_hist = Ok [OCtx [("i", VInt 2%Z)]; OAct "act_x" "{}" (Some "r")].
+Proof. exact (conj (proj1 ex_nodo_hyps) (conj (proj2 ex_nodo_hyps) (conj ex_nodo_follows_to (proj1 ex_nodo_follow)))). Qed.
+Print Assumptions C14_example_nested.
+
+(* ... and the full statement holds on the nested program WITH a subflow call and return *)
+Theorem C14_example_subflow :
+  forall h, In h [ex_hist; ex_hist ++ [EvBot "say s3"]; ex_hist ++ [EvUser "ask zzz"];
+                  firstn 3 ex_hist; firstn 5 ex_hist ++ [EvBot "say nothing"]] ->
+  compute_next_steps {| o_mark := true; o_guard := true |} 100 (compile_prog ex_prog) h
+  = next_steps 100 ex_prog h.
+Proof. exact ex_full_instance. Qed.
+Print Assumptions C14_example_subflow.
